@@ -53,40 +53,36 @@ func init() {
 				r.AnchorMissing("codec.(*Reader).skipField/readHead")
 				return
 			}
+			// The container skippers are analysed in line (inline.go expands skipFieldMap/List/SimpleList and
+			// any newer helper into skipField): the region of a wire type K is the set of blocks of skipField
+			// in which ty is known to be exactly K.
 			sets := valueSets(fn, fn.Params[1], nil)
-			callee := map[int64]*ssa.Function{}
-			for _, b := range fn.Blocks {
-				k, ok := singleton(sets[b].intersect(rng(0, 255)))
-				if !ok {
-					continue
-				}
-				for _, in := range b.Instrs {
-					if c, ok := in.(*ssa.Call); ok {
-						if sc := c.Call.StaticCallee(); sc != nil && sc.Pkg == fn.Pkg && sc.Signature.Recv() != nil && sc != fn {
-							if _, isW := widthOfCall(&c.Call, 0); !isW {
-								callee[k] = sc
-							}
-						}
+			region := func(k int64) map[*ssa.BasicBlock]bool {
+				out := map[*ssa.BasicBlock]bool{}
+				for _, b := range fn.Blocks {
+					if kk, ok := singleton(sets[b].intersect(rng(0, 255))); ok && kk == k {
+						out[b] = true
 					}
 				}
+				return out
 			}
 			for _, k := range []int64{wMAP, wLIST} {
-				sk := callee[k]
-				if sk == nil {
-					r.Bad(fname(fn), "case "+wname(k), fn.Pos(), "no skipper is called for %s", wname(k))
-					continue
-				}
+				reg := region(k)
 				want := map[int64]int64{wMAP: 2, wLIST: 1}[k]
-				loops := loopsOf(sk)
+				var loops []*natLoop
+				for _, l := range loopsOf(fn) {
+					if reg[l.head] {
+						loops = append(loops, l)
+					}
+				}
 				if len(loops) != 1 {
-					r.Undecided(fname(sk), "entry loop", sk.Pos(), "%d loops (expected one counted loop)", len(loops))
+					r.Undecided(fname(fn), "entry loop of "+wname(k), fn.Pos(), "%d loops in the %s region of skipField (expected one counted loop)", len(loops), wname(k))
 					continue
 				}
 				l := loops[0]
-				iff, ok := l.head.Instrs[len(l.head.Instrs)-1].(*ssa.If)
 				var mult int64 = -1
-				var lenOK bool
-				if ok {
+				lenOK := false
+				if iff, ok := l.head.Instrs[len(l.head.Instrs)-1].(*ssa.If); ok {
 					if c, ok := iff.Cond.(*ssa.BinOp); ok && c.Op == token.LSS {
 						bound := c.Y
 						mult = 1
@@ -99,7 +95,7 @@ func init() {
 								bound = m.Y
 							}
 						}
-						if _, ok := decodedIntSource(sk, bound); ok {
+						if _, ok := decodedIntSource(fn, bound); ok {
 							lenOK = true
 						}
 					}
@@ -117,17 +113,16 @@ func init() {
 						}
 					}
 				}
-				r.Check(lenOK && heads == 1 && fields == 1 && mult*int64(heads) == want, fname(sk), "entries per element", sk.Pos(),
+				r.Check(lenOK && heads == 1 && fields == 1 && mult*int64(heads) == want, fname(fn), "entries per element of "+wname(k), l.head.Instrs[0].Pos(),
 					"loop bound = length x %d, one head+field per iteration => %d field(s) per announced element",
 					"loop bound multiplier %d with %d head read(s) and %d field skip(s) per iteration; a "+wname(k)+" carries "+fmt.Sprint(want)+" field(s) per announced element (skipping too few/many desynchronises every following field)", mult, heads, fields)
 			}
-			if sk := callee[wSimpleList]; sk == nil {
-				r.Bad(fname(fn), "case SimpleList", fn.Pos(), "no skipper is called for SimpleList")
-			} else {
-				// BYTE head check
+			{
+				reg := region(wSimpleList)
+				// BYTE head check: the inner head read in the region; success only under tyCur == BYTE
 				var tyCur ssa.Value
-				eachInstr(sk, func(in ssa.Instruction) {
-					if ex, ok := in.(*ssa.Extract); ok && ex.Index == 0 {
+				eachInstr(fn, func(in ssa.Instruction) {
+					if ex, ok := in.(*ssa.Extract); ok && ex.Index == 0 && reg[in.Block()] {
 						if c, ok := ex.Tuple.(*ssa.Call); ok && c.Call.StaticCallee() == readHead {
 							tyCur = ex
 						}
@@ -135,38 +130,47 @@ func init() {
 				})
 				okHead := false
 				if tyCur != nil {
-					s := valueSets(sk, tyCur, nil)
-					idx := errorIndex(sk.Signature)
-					// every nil-capable return must be under tyCur == BYTE
+					s2 := valueSets(fn, tyCur, nil)
+					idx := errorIndex(fn.Signature)
 					okHead = true
-					for _, b := range sk.Blocks {
-						ret, ok := b.Instrs[len(b.Instrs)-1].(*ssa.Return)
-						if !ok {
+					seenRet := false
+					for _, rp := range returnPaths(fn) {
+						if !reg[rp.from] && !(rp.edgeTo != nil && reg[rp.edgeTo]) {
+							// a path that produces its result in the region, or whose producing block is dominated by the head read
+							if !tyCur.(*ssa.Extract).Block().Dominates(rp.from) {
+								continue
+							}
+						}
+						if !tyCur.(*ssa.Extract).Block().Dominates(rp.from) {
 							continue
 						}
-						if definitelyNonNilErr(ret.Results[idx], b) {
+						seenRet = true
+						v := rp.vals[idx]
+						if definitelyNonNilErr(v, rp.from) {
 							continue
 						}
-						if _, isNil := ret.Results[idx].(*ssa.Const); !isNil {
+						if !isNilConst(v) {
 							continue // propagated error value
 						}
-						if !s[b].intersect(rng(0, 255)).equal(rng(wBYTE, wBYTE)) {
+						if !rp.pathSet(s2, trackValue(tyCur)).intersect(rng(0, 255)).equal(rng(wBYTE, wBYTE)) {
 							okHead = false
 						}
 					}
+					if !seenRet {
+						okHead = false
+					}
 				}
-				r.Check(okHead, fname(sk), "element head is BYTE", sk.Pos(), "success only when the inner head has type BYTE", "a SimpleList must carry a BYTE head; other types must be an error")
-				// Skip(int(length)) with the decoded length
+				r.Check(okHead, fname(fn), "SimpleList element head is BYTE", fn.Pos(), "success only when the inner head has type BYTE", "a SimpleList must carry a BYTE head; other types must be an error")
 				okSkip := false
-				eachInstr(sk, func(in ssa.Instruction) {
-					if c, ok := in.(*ssa.Call); ok && callIs(&c.Call, "~/"+codecPkg+".(Reader).Skip") {
+				eachInstr(fn, func(in ssa.Instruction) {
+					if c, ok := in.(*ssa.Call); ok && reg[in.Block()] && callIs(&c.Call, "~/"+codecPkg+".(Reader).Skip") {
 						base, _ := convChain(c.Call.Args[1])
-						if _, ok := decodedIntSource(sk, base); ok {
+						if _, ok := decodedIntSource(fn, base); ok {
 							okSkip = true
 						}
 					}
 				})
-				r.Check(okSkip, fname(sk), "skips the announced length", sk.Pos(), "Skip(length) with the decoded length", "the byte vector content must be skipped by exactly the decoded length")
+				r.Check(okSkip, fname(fn), "SimpleList skips the announced length", fn.Pos(), "Skip(length) with the decoded length", "the byte vector content must be skipped by exactly the decoded length")
 			}
 		}})
 
